@@ -232,6 +232,7 @@ type Server struct {
 	seq      int
 	connSeq  int
 	Password string
+	Role     string // role reported by INFO replication ("master" default; "" = no role line)
 
 	// capabilities
 	Version     string // e.g. "5.0.7"
@@ -881,7 +882,14 @@ func (s *Server) info(section string) string {
 		}
 		return out
 	case "replication":
-		return "# Replication\r\nrole:master\r\nconnected_slaves:0\r\nmaster_repl_offset:0\r\n"
+		if s.Role == "none" {
+			return "# Replication\r\nconnected_slaves:0\r\n"
+		}
+		role := s.Role
+		if role == "" {
+			role = "master"
+		}
+		return "# Replication\r\nrole:" + role + "\r\nconnected_slaves:0\r\nmaster_repl_offset:0\r\n"
 	case "server":
 		return "# Server\r\nredis_version:" + s.Version + "\r\nredis_mode:standalone\r\n"
 	}
